@@ -13,6 +13,8 @@ use rand_xorshift::XorShiftRng;
 use rand_xoshiro::*;
 use std::fmt;
 use std::io::{self, BufRead, Write};
+#[cfg(feature = "serde")]
+mod hrfmt;
 use std::panic::{catch_unwind, panic_any, AssertUnwindSafe};
 use std::sync::atomic::{AtomicUsize, Ordering};
 use std::sync::Arc;
@@ -118,6 +120,10 @@ trait Gen: RngCore + SeedableRng + Clone + fmt::Debug + Send + Sync + 'static {
     fn de_(_b: &[u8]) -> Option<Option<Self>> {
         None
     }
+    /// round trip through the human-readable self-describing format (hrfmt): (text of the value, restored generator)
+    fn hr_(&self) -> Option<(String, Option<Self>)> {
+        None
+    }
 }
 
 macro_rules! serde_impl {
@@ -129,6 +135,13 @@ macro_rules! serde_impl {
         #[cfg(feature = "serde")]
         fn de_(b: &[u8]) -> Option<Option<Self>> {
             Some(bincode::deserialize(b).ok())
+        }
+        #[cfg(feature = "serde")]
+        fn hr_(&self) -> Option<(String, Option<Self>)> {
+            match hrfmt::to_value(self) {
+                Ok(v) => Some((hrfmt::show(&v), hrfmt::from_value(v).ok())),
+                Err(e) => Some((format!("ser-error {}", e), None)),
+            }
         }
     };
 }
@@ -511,6 +524,17 @@ where
                     None => { self.put(d, Slot::Empty); "unsupported".into() }
                 }
             }
+            ["rth", d, s] => {
+                // serde round trip through a HUMAN-READABLE format: d = from_value(to_value(s)); prints ok / err
+                let (d, s) = match (num(d), num(s)) { (Some(d), Some(s)) => (d, s), _ => return "bad-op".into() };
+                self.ensure(s);
+                let c: Option<Option<Slot<F>>> = rth_gen(&self.slots[s]);
+                match c {
+                    Some(Some(c)) => { self.put(d, c); "ok".into() }
+                    Some(None) => { self.put(d, Slot::Empty); "err".into() }
+                    None => { self.put(d, Slot::Empty); "unsupported".into() }
+                }
+            }
             ["de", d, kind, hexs] => {
                 let (d, bytes) = match (num(d), unhex(hexs)) { (Some(d), Some(b)) => (d, b), _ => return "bad-op".into() };
                 self.put(d, Slot::Empty);
@@ -658,6 +682,21 @@ fn rt_gen<F>(s: &Slot<F>) -> Option<Slot<F>> {
                     let bytes = g.ser_()?;
                     let back = <$t as Gen>::de_(&bytes)??;
                     Some(Slot::$t(Box::new(back)))
+                } )*
+                _ => None,
+            }
+        };
+    }
+    for_all_gens! {arms}
+}
+
+fn rth_gen<F>(s: &Slot<F>) -> Option<Option<Slot<F>>> {
+    macro_rules! arms {
+        ($($t:ident),*) => {
+            match s {
+                $( Slot::$t(g) => {
+                    let (_text, back) = g.hr_()?;
+                    Some(back.map(|b| Slot::$t(Box::new(b))))
                 } )*
                 _ => None,
             }
